@@ -26,7 +26,8 @@ RULE = ('generated meshes (user amplifiers with full / partial / no settings inc
         'mode, delta_power_range incl. [0,0,0], slope, reference loss, padding, EOL, connector defaults, PSD/PSW '
         'policies, per-degree targets, reference channel count on/off). Every amplifier of every single-band OMS is '
         'one observation for I1/I2/I3; every amplifier/ROADM crossing of the propagated design comb one for I4. '
-        'Non-trivial: an OMS with >=2 amplifiers. Distinct: hash of (configuration, topology).')
+        'Non-trivial: an OMS with >=2 amplifiers. Distinct: hash of (configuration, topology).'
+        ' Also point-to-point lines without ROADMs, transceivers attached through a line, amplifier types with automatic output VOA, offset ranges off the step grid and other reference channels than 32 GBd / 50 GHz.')
 ASSUMPTIONS = ['single-band OMS without Raman fibre are walked; multiband and Raman OMS are counted and skipped',
                'offsets exactly on a rounding tie of the step are not judged',
                'amplifier models with automatic output VOA are judged for I1 and I4 only',
@@ -394,6 +395,7 @@ def build_inputs(rng, kind):
     if kind == 'p2p':
         return ej, G.gen_p2p(rng, lumped=rng.random() < 0.2)
     tj, _ = G.gen_topology(rng, max_sites=4, max_spans=3, per_degree=rng.random() < 0.4, lumped=rng.random() < 0.2,
+                           chassis=rng.random() < 0.2,
                            amp_varieties=['std_medium_gain', 'std_low_gain', 'std_high_gain', 'std_fixed_gain',
                                           'high_detail_model_example', 'operator_model_example'], max_km=140)
     return ej, tj
